@@ -6,7 +6,7 @@ import collections, os, random, re, subprocess
 from common import *
 
 WRAPS = ['gettimeofday', 'regexec', 'socket', 'setsockopt', 'connect', 'getsockopt', 'accept', 'getnameinfo', 'fcntl',
-         'close', 'read', 'write', 'poll', 'socketpair', 'fork', 'kill', 'waitpid', 'xpoll']
+         'close', 'read', 'write', 'poll', 'socketpair', 'fork', 'kill', 'waitpid', 'xpoll', 'getaddrinfo', 'freeaddrinfo']
 
 
 def build():
@@ -43,6 +43,15 @@ MIXP_ALIASES = collections.OrderedDict([('rackt', 't[0-3]'), ('mix', 't7,u[1-2]'
 import preds as _preds
 _preds.ALIASES = {k.encode(): _preds.expand_hl(v.encode()) for k, v in MIXP_ALIASES.items()}     # MarkerWorld configurations have none: names differ
 CONFS['mixp'] += ''.join('alias "%s" "%s"\n' % kv for kv in MIXP_ALIASES.items())
+# the same with a tcp device whose host name resolves to three addresses (`multi3`: the harness's getaddrinfo): tcp_connect and
+# tcp_finish_connect walk the list
+CONFS['mixp3'] = CONFS['mixp'].replace('"127.0.0.1:11001"', '"multi3:11001"')
+NADDR = {'mixp3': 3}
+
+
+def conf_for(seed, conf='mixp'):
+    """the configuration a run of the given seed uses: every third run of `mixp` is on the multi-address variant"""
+    return 'mixp3' if conf == 'mixp' and seed % 3 == 0 else conf
 
 
 def conf_path(name):
@@ -175,9 +184,49 @@ class Gen:
             out += R.choice([bytes([255]), bytes([255, 253]), bytes([255, 251])])
         return out
 
+    naddr = 1          # the largest number of addresses a tcp device of the configuration has
+
     def connans(self):
-        r = self.R.random()
-        return 2 if r < self.p['pF6'] else (0 if r < 0.3 else 1)
+        """the answers to the connect() calls of one pass: one digit per call of one device (0 connected at once, 1 in progress,
+        2 failed at once), the last digit repeating; with several addresses per host the first ones often fail"""
+        R = self.R
+        r = R.random()
+        one = '2' if r < self.p['pF6'] else ('0' if r < 0.3 else '1')
+        if self.naddr <= 1: return one
+        k = R.random()
+        if k < 0.45: return one
+        if k < 0.60: return '2' + one                                  # first address unreachable at once, the second answers
+        if k < 0.70: return '22' + one
+        if k < 0.76: return '2' * self.naddr                           # every address fails at once
+        if k < 0.82: return '2' * (self.naddr - 1) + R.choice('01')    # only the last one answers
+        return ''.join(R.choice('0112') for _ in range(R.randint(2, self.naddr + 2)))
+
+    def soeans(self, fail):
+        """the answers to getsockopt(SO_ERROR), one digit per call of one device (1 = the connect failed)"""
+        R = self.R
+        if self.naddr <= 1: return '1' if fail else '0'
+        k = R.random()
+        if k < 0.5: return '1' if fail else '0'
+        if k < 0.65: return '10'                                       # the pending connect failed, the next address is fine
+        if k < 0.75: return '110'
+        if k < 0.85: return '1' * R.randint(1, self.naddr + 1)         # every address refuses
+        return ''.join(R.choice('01') for _ in range(R.randint(1, self.naddr + 1)))
+
+
+def multi_stats(obs, stats):
+    """counters of the address walks of one pass (configurations with a multi-address host; one such device per configuration)"""
+    ys = [l.split() for l in obs if l.startswith("Y ")]
+    ncon = sum(1 for t in ys if t[1] == 'socket')
+    if ncon >= 2: stats['multi-address: passes in which a device tried %d addresses' % min(ncon, 6)] += 1
+    seq = [t[1] + (t[2] if t[1] in ('connect', 'soerr') else '') for t in ys if t[1] in ('socket', 'connect', 'soerr')]
+    for i in range(len(seq) - 1):
+        if seq[i] == 'soerr1' and seq[i + 1] == 'socket': stats['multi-address: SO_ERROR reports a failed connect, the walk goes on with the next address'] += 1
+        if seq[i] == 'connect2' and seq[i + 1] == 'socket': stats['multi-address: connect() fails at once, the next address is tried'] += 1
+    for l in obs:
+        if l.startswith("O dev ") and " conn " in l:
+            t = l.split(); cur = int(t[9]); cs = int(t[4])
+            if cur >= 1: stats['multi-address: pass ends %s on address %d' % ('CONNECTED' if cs == 2 else 'CONNECTING', cur + 1)] += 1
+            if cur == -1 and ncon >= 2: stats['multi-address: an attempt failed on every address (connection refused)'] += 1
 
 
 class _Lines:
@@ -257,6 +306,7 @@ def simulate(seed, N, profile=None, conf='mixp', fixed_ops=None, world=None):
     cpath = world.conf_path() if world else conf_path(conf)
     g = Gen(seed, profile)
     g.world = world
+    g.naddr = world.naddr() if world else NADDR.get(conf, 1)
     R = g.R
     P = g.p
     errpath = os.path.join(tree_dir(), 'udmn.err.%d.%d' % (os.getpid(), seed))
@@ -279,7 +329,7 @@ def simulate(seed, N, profile=None, conf='mixp', fixed_ops=None, world=None):
         if fixed_ops is not None:
             op = fixed_ops[it]
         elif it == 0:
-            op = "I 0 %d 0" % g.connans()
+            op = "I 0 %s 0" % g.connans()
         else:
             if storm: now += R.choice([0, 0, 1000])          # the clock nearly stands still: no deadline passes during the storm
             elif dead: now += R.choice([300000, 1000000, 2000000, 5000000, 17000000, 40000000, 61000000])
@@ -326,7 +376,7 @@ def simulate(seed, N, profile=None, conf='mixp', fixed_ops=None, world=None):
                 if rev: parts.append("%d:%d:%d:%s:%d" % (fd, rev, rk, hx(data), cap))
                 if (rev & 1) and data: dl_c[fd] = data
                 elif data: sendq[fd] = data + sendq[fd]
-            soe = 0
+            soe = '0'
             if storm is None and P.get('storm', 0.0) > 0 and not world and conf == 'mixp' and conn[0] == 2 and dfd[0] >= 0 and it < N - 30 and R.random() < P['storm']:
                 storm = dict(phase='flood', n=0, off=0, full=0, reached=False, left=0, bytes=0)
                 stats['telnet storms with stalled writes started'] += 1
@@ -341,7 +391,7 @@ def simulate(seed, N, profile=None, conf='mixp', fixed_ops=None, world=None):
                         rev = 1 if data else 0
                     elif conn[di] == 1:
                         if r < 0.7: rev = 2
-                        elif r < 0.8: rev = 2; soe = 1 if R.random() < P['pF6'] * 5 else 0
+                        elif r < 0.8: rev = 2; soe = g.soeans(R.random() < P['pF6'] * 5 * (3 if g.naddr > 1 else 1))
                         elif r < 0.9: rev = R.choice([4, 8, 12, 6, 10])
                         elif r < 0.95: rev = R.choice([1, 3])
                         else: rev = 2 if F < 1 else 0
@@ -376,7 +426,7 @@ def simulate(seed, N, profile=None, conf='mixp', fixed_ops=None, world=None):
             # another signal (it crashed, was killed from outside)
             wst = ""
             if R.random() < 0.08: wst = " W%d" % R.choice([15, 0, 256, 9, 11, 139, 6]); stats['coprocess wait statuses other than the default offered'] += 1
-            op = "P %d %d %d %d" % (now, acc, 2 if dead else g.connans(), soe) + "".join(" " + x for x in parts) + wst + hup
+            op = "P %d %d %s %s" % (now, acc, "2" if dead else g.connans(), soe) + "".join(" " + x for x in parts) + wst + hup
             if it == N - 1:
                 # the run ends with a termination signal that arrives while the daemon sleeps in poll, together with everything this
                 # pass would have made ready: the daemon must not look at any of it
@@ -445,6 +495,7 @@ def simulate(seed, N, profile=None, conf='mixp', fixed_ops=None, world=None):
                         if ln[:3].isdigit(): stats['code ' + ln[:3].decode()] += 1
             if l.startswith("Y "): stats['sys ' + l.split()[1]] += 1
             if ' queue' in l and ' 6:0' in l: stats['passes with a ping queued'] += 1
+        if g.naddr > 1: multi_stats(obs, stats)
         for fd in list(live):
             if fd not in newlive: sendq.pop(fd, None)
         live = newlive
@@ -738,6 +789,9 @@ def simulate_sched(seed, N, sickB, conf='mixp'):
                 rev = 2 | (1 if data else 0)
                 parts.append("%d:%d:0:%s:%d" % (c['fd'], rev, hx(data), 1 << 20))
             con = 1; soe = 0
+            if NADDR.get(conf, 1) > 1 and sick_mode != 'refuse':
+                # B's host has several addresses (A is a coprocess: it makes no connect() call): per-call answers, B's own PRNG
+                con = RB.choice(['1', '1', '0', '21', '221', '20', '2222']); soe = RB.choice(['0', '0', '0', '10', '110', '1'])
             for di in range(ND):
                 if dfd[di] < 0: continue
                 rev = 0; rk = 0; data = b""
@@ -783,7 +837,7 @@ def simulate_sched(seed, N, sickB, conf='mixp'):
                 if sick_mode == 'refuse' and di == 0 and not tcpA: con = 2
                 if (rev & 1) and rk == 0 and not data: rev &= ~1
                 if rev: parts.append("%d:%d:%d:%s:%d" % (dfd[di], rev, rk, hx(data), 1 << 20))
-            op = "P %d %d %d %d" % (s['now'], s['acc'], con, soe) + "".join(" " + x for x in parts)
+            op = "P %d %d %s %s" % (s['now'], s['acc'], con, soe) + "".join(" " + x for x in parts)
         res = c_op(op)
         if ':3:' in op: op = settle_exactfit(op, res)
         ops.append(op)
@@ -808,6 +862,7 @@ def simulate_sched(seed, N, sickB, conf='mixp'):
                     lines = [x for x in re.sub(rb"\xff[\xfb\xfc].", b"", w, flags=re.S).split(b"\n") if x and x[0] != 255]
                     if lines: pending[wfd[fd]] += (g if wfd[fd] == 1 else gB).devreply(lines[-1] + b"\n")
             if l.startswith("Y "): stats['sys ' + l.split()[1]] += 1
+        if NADDR.get(conf, 1) > 1: multi_stats(obs, stats)
     teardown = None
     if not died:
         res = c_op("Q")
@@ -858,6 +913,9 @@ class MarkerWorld:
                 if 's' in pat: has.add(b)
                 if 'a' in pat: has.add(b + 1)
             self.devs.append(dict(name='d%d' % i, plugs=plugs, node=node, has=has, tcp=(i == 0)))
+        # the tcp device's host: one address, or a name the harness's resolver gives 2..4 addresses (own PRNG: the rest of the world
+        # is what it was)
+        for d in self.devs: d['host'] = random.Random(seed * 7 + 2).choice(['127.0.0.1', '127.0.0.1', 'multi2', 'multi3', 'multi4']) if d['tcp'] else None
         self.node2dev = {}
         for i, d in enumerate(self.devs):
             for pl, nd in d['node'].items():
@@ -888,11 +946,14 @@ class MarkerWorld:
                 t += '  script %s { %s }\n' % (names[k], body)
             t += '}\n'
         for i, d in enumerate(self.devs):
-            t += 'device "%s" "g%d" "%s"\n' % (d['name'], i, '127.0.0.1:%d' % (11000 + i) if d['tcp'] else '/bin/true |&')
+            t += 'device "%s" "g%d" "%s"\n' % (d['name'], i, '%s:%d' % (d['host'], 11000 + i) if d['tcp'] else '/bin/true |&')
         for i, d in enumerate(self.devs):
             for pl in d['plugs']:
                 if d['node'][pl]: t += 'node "%s" "%s" "%s"\n' % (d['node'][pl], d['name'], pl)
         return t
+
+    def naddr(self):
+        return max([int(d['host'][5:]) for d in self.devs if d['tcp'] and d['host'].startswith('multi')] + [1])
 
     def conf_path(self):
         p = os.path.join(tree_dir(), 'marker-%d.conf' % self.seed)
